@@ -12,7 +12,8 @@ UTC = datetime.timezone.utc
 class Pair(object):  # pylint: disable=too-few-public-methods
     """One generated case: library object, the class whose parser must accept it, reference bytes."""
 
-    def __init__(self, label, obj, wire, extra=None, compose_must_match=True):
+    def __init__(self, label, obj, wire, extra=None, compose_must_match=True, key_suffix=''):
+        self.key_suffix = key_suffix    # appended to class-based finding keys (separates a known mechanism)
         self.label = label
         self.obj = obj
         self.cls = type(obj)
